@@ -133,6 +133,8 @@ struct Ctx
     std::uint64_t poison_mask = 0;
     bool zero_instead = false;         // twin run: poisoned calls return zero and add nothing
     std::uint64_t user_stop = ~0ULL;   // scripted user callback returns false at this nresults
+    bool cmap_sparse = false;          // the scripted map writes the densities of enabled channels only
+    std::uint64_t base_results = 0;   // results the checkpoint held when this run started
     // unusual but legal user code: the integrand runs a small integration of its own (same template
     // instantiation) on some of its calls
     bool nested = false;
@@ -185,6 +187,8 @@ struct ChannelMap
     std::vector<long double> slo, shi;
     bool singular = false;   // one channel's density is infinite at some points
     bool early = false;      // densities are written when coordinates are requested
+    bool sparse = false;     // the map writes the densities of the enabled channels only and leaves the rest alone
+    int coord_ret = 0;       // value returned from the coordinate request (documented as ignored): 0 jacobian, 1 zero, 2 one, 3 NaN
     long double jac = 1;
 
     void build(Plan const& p);
